@@ -983,6 +983,125 @@ class SymStr:
     def capitalize(self):
         raise Unsupported("capitalize on symbolic string")
 
+    # ---- case mapping (ASCII; symbolic characters are declared within ASCII)
+    def _map_case(self, lo, hi, delta):
+        out = []
+        for i in self._chs:
+            if isinstance(i, str):
+                out.append(i.lower() if delta > 0 else i.upper())
+                continue
+            r = ch_in_range(i, lo, hi)
+            if r is False:
+                out.append(i)
+            elif r is True:
+                out.append(i + delta)
+            else:
+                out.append(z3.If(unwrap_bool(r), i + delta, i))
+        return SymStr.mk(out)
+
+    def lower(self):
+        return self._map_case(65, 90, 32)
+
+    def upper(self):
+        return self._map_case(97, 122, -32)
+
+    def casefold(self):
+        return self.lower()
+
+    def islower(self):
+        return band(bor(*[ch_in_range(i, 97, 122) for i in self._chs]), *[bnot(ch_in_range(i, 65, 90)) for i in self._chs])
+
+    def isupper(self):
+        return band(bor(*[ch_in_range(i, 65, 90) for i in self._chs]), *[bnot(ch_in_range(i, 97, 122)) for i in self._chs])
+
+    def isalpha(self):
+        return self._cls(lambda c: c.isalpha() if isinstance(c, str) else bor(ch_in_range(c, 65, 90), ch_in_range(c, 97, 122)))
+
+    def isspace(self):
+        return self._cls(_ch_isspace)
+
+    # ---- stripping (forks per character)
+    @staticmethod
+    def _strip_pred(chars):
+        if chars is None:
+            return _ch_isspace
+        chars = SymStr.lift(chars)
+        return lambda c: bor(*[ch_eq(c, x) for x in chars._chs])
+
+    def lstrip(self, chars=None):
+        pred = self._strip_pred(chars)
+        k = 0
+        while k < len(self._chs):
+            c = pred(self._chs[k])
+            if not isinstance(c, bool):
+                c = ENG.branch(unwrap_bool(c))
+            if not c:
+                break
+            k += 1
+        return SymStr.mk(self._chs[k:])
+
+    def rstrip(self, chars=None):
+        pred = self._strip_pred(chars)
+        k = len(self._chs)
+        while k > 0:
+            c = pred(self._chs[k - 1])
+            if not isinstance(c, bool):
+                c = ENG.branch(unwrap_bool(c))
+            if not c:
+                break
+            k -= 1
+        return SymStr.mk(self._chs[:k])
+
+    def strip(self, chars=None):
+        return SymStr.lift(self.lstrip(chars)).rstrip(chars) if len(self._chs) else ''
+
+    def partition(self, sep):
+        k = self.find(sep)
+        if k < 0:
+            return (self, '', '')
+        return (self[:k], sep, self[k + len(sep):])
+
+    def rpartition(self, sep):
+        sep_l = SymStr.lift(sep)
+        m = len(sep_l)
+        for off in range(len(self._chs) - m, -1, -1):
+            if self[off:off + m] == sep:
+                return (self[:off], sep, self[off + m:])
+        return ('', '', self)
+
+    def removeprefix(self, p):
+        return self[len(p):] if self.startswith(p) else self
+
+    def removesuffix(self, p):
+        return self[:len(self) - len(p)] if (len(p) and self.endswith(p)) else self
+
+    def replace(self, old, new, count=-1):
+        old_l = SymStr.lift(old)
+        if len(old_l) != 1 or count != -1:
+            raise Unsupported("replace form")
+        out = []
+        for i in self._chs:
+            c = ch_eq(i, old_l._chs[0])
+            if not isinstance(c, bool):
+                c = ENG.branch(unwrap_bool(c))
+            if c:
+                out.extend(SymStr.lift(new)._chs)
+            else:
+                out.append(i)
+        return SymStr.mk(out)
+
+    def __getattr__(self, name):
+        # a string method the engine does not model: the path is inconclusive, never a silent AttributeError
+        if name.startswith('__') or not hasattr(str, name):
+            raise AttributeError(name)
+        raise Unsupported("str.%s on a symbolic string" % name)
+
+
+def _ch_isspace(c):
+    if isinstance(c, str):
+        return c.isspace()
+    return bor(ch_in_range(c, 9, 13), ch_in_range(c, 28, 32))
+
 
 def sym_format(tmpl, args, kw):
     out = []
@@ -1263,6 +1382,137 @@ def _is_plain_table(obj):
     return (type(obj) is dict and obj and not any(is_sym(x) for x in obj))
 
 
+class SymSet:
+    """a set display with symbolic elements ({a[0], b[0]}): elements kept pairwise distinct by forking on equality;
+    comparisons and membership are decided element-wise (they fork through the engine)"""
+
+    def __init__(self, items=()):
+        self._items = []
+        for x in items:
+            self.add(x)
+
+    @staticmethod
+    def _elems(o):
+        if isinstance(o, SymSet):
+            return list(o._items)
+        if isinstance(o, (set, frozenset, list, tuple, dict)):
+            return list(o)
+        return None
+
+    def _has(self, x):
+        for y in self._items:
+            if y == x:              # forks when symbolic
+                return True
+        return False
+
+    def add(self, x):
+        if not self._has(x):
+            self._items.append(x)
+
+    def discard(self, x):
+        for i, y in enumerate(self._items):
+            if y == x:
+                del self._items[i]
+                return
+
+    def remove(self, x):
+        n = len(self._items)
+        self.discard(x)
+        if len(self._items) == n:
+            raise KeyError(x)
+
+    def __len__(self):
+        return len(self._items)
+
+    def __iter__(self):
+        items = list(self._items)
+        if RT.set_order_hook is not None:
+            items = RT.set_order_hook(items)
+        return iter(items)
+
+    def __contains__(self, x):
+        return self._has(x)
+
+    def __bool__(self):
+        return bool(self._items)
+
+    def issubset(self, o):
+        other = SymSet._elems(o)
+        if other is None:
+            return NotImplemented
+        o2 = o if isinstance(o, SymSet) else SymSet(other)
+        return all(o2._has(x) for x in self._items)
+
+    def issuperset(self, o):
+        other = SymSet._elems(o)
+        if other is None:
+            return NotImplemented
+        return all(self._has(x) for x in other)
+
+    def __le__(self, o): return self.issubset(o)
+    def __ge__(self, o): return self.issuperset(o)
+
+    def __eq__(self, o):
+        other = SymSet._elems(o)
+        if other is None or isinstance(o, (list, tuple, dict)):
+            return False
+        o2 = o if isinstance(o, SymSet) else SymSet(other)
+        return len(o2) == len(self) and self.issubset(o2)
+
+    def __ne__(self, o):
+        return not self.__eq__(o)
+
+    def __lt__(self, o):
+        r = self.issubset(o)
+        return r if r is NotImplemented else (r and len(self) < len(o if isinstance(o, SymSet) else SymSet(SymSet._elems(o))))
+
+    def __gt__(self, o):
+        r = self.issuperset(o)
+        return r if r is NotImplemented else (r and len(self) > len(o if isinstance(o, SymSet) else SymSet(SymSet._elems(o))))
+
+    def union(self, *others):
+        r = SymSet(self._items)
+        for o in others:
+            for x in SymSet._elems(o):
+                r.add(x)
+        return r
+
+    def intersection(self, *others):
+        r = SymSet(self._items)
+        for o in others:
+            o2 = o if isinstance(o, SymSet) else SymSet(SymSet._elems(o))
+            r = SymSet([x for x in r._items if o2._has(x)])
+        return r
+
+    def difference(self, *others):
+        r = SymSet(self._items)
+        for o in others:
+            o2 = o if isinstance(o, SymSet) else SymSet(SymSet._elems(o))
+            r = SymSet([x for x in r._items if not o2._has(x)])
+        return r
+
+    def isdisjoint(self, o):
+        return len(self.intersection(o)) == 0
+
+    __or__ = union
+    __ror__ = union
+    __and__ = intersection
+    __rand__ = intersection
+    __sub__ = difference
+
+    def __rsub__(self, o):
+        return SymSet(SymSet._elems(o)).difference(self)
+
+    def copy(self):
+        return SymSet(self._items)
+
+    def __hash__(self):
+        raise Unsupported("hash of a set with symbolic elements")
+
+    def __repr__(self):
+        return "SymSet(%r)" % (self._items,)
+
+
 class RT:
     _hash_ok = False
     call_hooks = []        # [(predicate(f, a, kw) -> bool, handler(f, a, kw))]
@@ -1277,6 +1527,8 @@ class RT:
                     return item in cont
                 return SymStr.lift(cont).contains(item)
             raise TypeError("'in <string>' requires string as left operand")
+        if isinstance(cont, SymSet):
+            return bor(*[(k == item) for k in cont._items])
         if isinstance(cont, (dict, list, tuple, set, frozenset)) or type(cont).__name__ in ('dict_keys', 'dict_values'):
             def symbolic(x):
                 return is_sym(x) or (type(x) is tuple and any(is_sym(y) for y in x))
@@ -1287,6 +1539,13 @@ class RT:
                     return a == b
                 return bor(*[eq(k, item) for k in cont])
         return item in cont
+
+    @staticmethod
+    def mkset(items):
+        items = list(items)
+        if any(is_sym(x) or (type(x) is tuple and any(is_sym(y) for y in x)) for x in items):
+            return SymSet(items)
+        return set(items)
 
     @staticmethod
     def not_contains(item, cont):
@@ -1675,6 +1934,17 @@ class Rewriter(ast.NodeTransformer):
         pairs = ast.List(elts=[ast.Tuple(elts=[k, v], ctx=ast.Load())
                                for k, v in zip(node.keys, node.values)], ctx=ast.Load())
         return ast.copy_location(ast.Call(func=self._rt('mkdict'), args=[pairs], keywords=[]), node)
+
+    def visit_Set(self, node):
+        self.generic_visit(node)
+        if all(isinstance(e, ast.Constant) for e in node.elts) or any(isinstance(e, ast.Starred) for e in node.elts):
+            return node
+        return ast.copy_location(ast.Call(func=self._rt('mkset'), args=[ast.List(elts=node.elts, ctx=ast.Load())], keywords=[]), node)
+
+    def visit_SetComp(self, node):
+        self.generic_visit(node)
+        lc = ast.ListComp(elt=node.elt, generators=node.generators)
+        return ast.copy_location(ast.Call(func=self._rt('mkset'), args=[lc], keywords=[]), node)
 
     def visit_DictComp(self, node):
         self.generic_visit(node)
